@@ -61,7 +61,9 @@ func drawSeed(rt *rapid.T, examples []seedProg) seedProg {
 
 func drawSeedRaw(rt *rapid.T, examples []seedProg) seedProg {
 	pick := func(label string, n int) int { return rapid.IntRange(0, n-1).Draw(rt, label) }
-	switch rapid.IntRange(0, 11).Draw(rt, "seedkind") {
+	switch rapid.IntRange(0, 12).Draw(rt, "seedkind") {
+	case 12:
+		return seedProg{Src: genCoincidingNames(rt), Kind: "coinciding-names"}
 	case 11:
 		// recursion hundreds to thousands of activations deep (well inside what the interpreter handles), in
 		// several shapes: the result must not depend on how the recursive call is dressed
@@ -147,4 +149,65 @@ func drawSeedRaw(rt *rapid.T, examples []seedProg) seedProg {
 		}
 		return seedProg{Src: b.String(), Kind: "closures"}
 	}
+}
+
+// genCoincidingNames: a function whose parameters are named like a built-in,
+// like the function itself, like a sibling function or like a global; reads,
+// assignments, calls, captures and nested shadowing of those parameters, and
+// the outer bindings afterwards.
+func genCoincidingNames(rt *rapid.T) string {
+	P, F, R, V := bn.KwPrint, bn.KwFun, bn.KwReturn, bn.KwVar
+	pool := []string{"a", "b", "fn1", "sib", bn.BLen, bn.BRound, bn.BMax, bn.BInput, bn.BKeys, bn.BClock}
+	np := rapid.IntRange(1, 3).Draw(rt, "nparams")
+	var params []string
+	for len(params) < np {
+		q := rapid.SampledFrom(pool).Draw(rt, "param")
+		dup := false
+		for _, x := range params {
+			dup = dup || x == q
+		}
+		if !dup {
+			params = append(params, q)
+		}
+	}
+	var b strings.Builder
+	uniq := 0
+	u := func() string { uniq++; return fmt.Sprint(500 + uniq) }
+	fmt.Fprintf(&b, "%s a = 1;\n%s b = 2;\n%s sib(x) { %s \"sib\" + x; }\n%s three(x) { %s 3; }\n", V, V, F, R, F, R)
+	fmt.Fprintf(&b, "%s fn1(%s) {\n", F, strings.Join(params, ", "))
+	nst := rapid.IntRange(2, 8).Draw(rt, "nstmts")
+	for i := 0; i < nst; i++ {
+		q := rapid.SampledFrom(params).Draw(rt, "on")
+		switch rapid.IntRange(0, 7).Draw(rt, "stmt") {
+		case 0, 1:
+			fmt.Fprintf(&b, "  %s %s;\n", P, q)
+		case 2:
+			fmt.Fprintf(&b, "  %s = %s;\n  %s %s;\n", q, u(), P, q)
+		case 3:
+			fmt.Fprintf(&b, "  %s %s([1, 2, 3, 4]);\n", P, q) // a call through the parameter (an error unless it holds a function)
+		case 4:
+			fmt.Fprintf(&b, "  %s get%d() { %s %s; }\n  %s get%d();\n", F, i, R, q, P, i)
+		case 5:
+			if bn.IsBuiltin(q) {
+				// a built-in's name cannot be declared with ধরি: shadow it with a nested function's parameter instead
+				fmt.Fprintf(&b, "  %s inner%d(%s) { %s %s; }\n  inner%d(%s);\n  %s %s;\n", F, i, q, P, q, i, u(), P, q)
+			} else {
+				fmt.Fprintf(&b, "  { %s %s = %s; %s %s; }\n  %s %s;\n", V, q, u(), P, q, P, q)
+			}
+		case 6:
+			other := rapid.SampledFrom(pool).Draw(rt, "other")
+			fmt.Fprintf(&b, "  %s %s;\n", P, other)
+		default:
+			fmt.Fprintf(&b, "  %s set%d(v) { %s = v; }\n  set%d(%s);\n  %s %s;\n", F, i, q, i, u(), P, q)
+		}
+	}
+	fmt.Fprintf(&b, "  %s keep() { %s %s; }\n  %s keep;\n}\n", F, R, params[0], R)
+	var args []string
+	for range params {
+		args = append(args, rapid.SampledFrom([]string{"three", "sib", "\"arg\"", "7", bn.BAbs, "nil", "[9]"}).Draw(rt, "arg"))
+	}
+	fmt.Fprintf(&b, "%s k = fn1(%s);\n%s k();\n", V, strings.Join(args, ", "), P)
+	// the outer bindings afterwards
+	fmt.Fprintf(&b, "%s a;\n%s b;\n%s sib(\"!\");\n%s %s([1, 2]);\n%s %s(2.5);\n%s %s(1, 2);\n%s %s({z: 1});\n%s fn1 == fn1;\n", P, P, P, P, bn.BLen, P, bn.BRound, P, bn.BMax, P, bn.BKeys, P)
+	return b.String()
 }
